@@ -49,9 +49,9 @@ def rerun_known(findings, prop):
 
 
 def bounded_monitor(prop, seed):
-    code, out = run_native("replay/monitor.py", [prop, str(seed)], timeout=600)
+    code, out = run_native("replay/monitor.py", [prop, str(seed)], timeout=600, full=True)
     try:
-        doc = json.loads(out[out.index("{"):])
+        doc = json.loads(out[out.index("{"): out.rindex("}") + 1])
     except Exception:
         doc = {"output": out[-800:]}
     doc["exit"] = code
